@@ -3,3 +3,4 @@ pub mod c20;
 pub mod c07;
 pub mod c11;
 pub mod c13;
+pub mod c19;
